@@ -11,6 +11,7 @@ Variable parse_tree : mapper -> tz -> res (option T * mapper * tz).
 Variable set_label : T -> option str -> T.
 Variable add_comments : T -> list str -> T.
 Variable vl : bool.
+Variable vs : bool.
 Variables va vk : bool.
 
 Hypothesis parse_tree_suf : forall m z ot m' z',
@@ -22,7 +23,7 @@ Definition nexus_yield (nc : nscfg) (ns0 : list str) (d : doc) : list T * res (c
   y_items_from_stream T lower upper parse_tree set_label add_comments vl nc false
                       (doc_fuel d) (core_init nc ns0 d) (regs_init nc).
 
-Notation NR := (nexus_read T lower upper parse_tree set_label add_comments vl).
+Notation NR := (nexus_read T lower upper parse_tree set_label add_comments vl vs).
 
 Lemma yield_from_files_nexus : forall ns0 d,
   yield_from_files T lower upper parse_tree set_label add_comments vl Nexus ns0 d =
@@ -35,7 +36,7 @@ Qed.
 
 (* the reader under configuration (nc, tlf) is determined by the iterator under nc *)
 Lemma nexus_read_of_yield : forall nc tlf ns0 d,
-  NoSets upper (fst d) ->
+  SetsOk upper vs (fst d) ->
   match snd (nexus_yield nc ns0 d) with
   | Ok (k', g') =>
     exists s, NR (mkCfg nc tlf) ns0 d = Ok s /\ r_k s = k' /\ r_g s = g'
@@ -53,7 +54,7 @@ Proof.
   { unfold wf, tls0. destruct tlf; simpl; auto. }
   assert (F0 : flat T tlf tls0 = []).
   { unfold flat, tls0. destruct tlf; reflexivity. }
-  pose proof (stream_agree T lower upper parse_tree set_label add_comments vl nc tlf false parse_tree_suf upper_idem
+  pose proof (stream_agree T lower upper parse_tree set_label add_comments vl vs nc tlf false parse_tree_suf upper_idem
                 (doc_fuel d) (core_init nc ns0 d) (regs_init nc) tls0 [] W0) as H.
   specialize (H N).
   destruct (y_items_from_stream T lower upper parse_tree set_label add_comments vl nc false
@@ -71,7 +72,7 @@ Qed.
 (* one list for everything = the concatenation of one list per collection (same namespace
    configuration): TreeList.get vs TreeList.get(collection_offset=..) / Tree.get *)
 Lemma list_vs_blocks : forall nc ns0 d,
-  NoSets upper (fst d) ->
+  SetsOk upper vs (fst d) ->
   match NR (mkCfg nc TLNew) ns0 d with
   | Ok sb => exists sl, NR (mkCfg nc TLFixed) ns0 d = Ok sl
                         /\ rs_list0 T sl = concat (rs_blocks T sb) /\ r_k sl = r_k sb /\ r_g sl = r_g sb
